@@ -305,7 +305,12 @@ def dataset_like(sample_dataset: xarray.Dataset, new_dataset: xarray.Dataset) ->
     _update_no_clobber(sample_dataset.encoding, like_dataset.encoding)
     for key, sample_variable in sample_dataset.variables.items():
         new_variable = like_dataset.variables[key]
-        _update_no_clobber(sample_variable.attrs, new_variable.attrs)
+        # An attribute xarray decoded when opening the new dataset, such as _FillValue,
+        # now lives in the encoding. Copying it back as an attribute makes the variable unsaveable.
+        _update_no_clobber({
+            attr: value for attr, value in sample_variable.attrs.items()
+            if attr not in new_variable.encoding
+        }, new_variable.attrs)
         _update_no_clobber(sample_variable.encoding, new_variable.encoding)
 
     # Done!
